@@ -54,8 +54,9 @@ class Slices:
         if start is None or stop is None or stop <= start:
             raise Unsupported("argparse construction not located")
         self.parser_stmts = body[start:stop]
-        mime_idx = [i for i, st in enumerate(body) if isinstance(st, ast.If) and (assigns(st, 'from_mime') or assigns(st, 'to_mime'))]
-        if len(mime_idx) < 2:
+        mime_idx = [i for i, st in enumerate(body) if not isinstance(st, (ast.FunctionDef, ast.With, ast.Try))
+                    and (assigns(st, 'from_mime') or assigns(st, 'to_mime'))]
+        if len(mime_idx) < 1:
             raise Unsupported("from_mime/to_mime resolution not located")
         opt_idx = next((i for i, st in enumerate(body) if assigns(st, 'options') and any(
             isinstance(n, ast.Attribute) and n.attr == 'BuildOptions' for n in ast.walk(st))), None)
